@@ -107,6 +107,14 @@ def handleEval : Handler := fun st op args =>
   | "threats", [ptok] =>
     some (st, withPos ptok fun p => let t := countThreats p.c p; s!"{t.wp} {t.wt} {t.bp} {t.bt}")
   | "c19hyp", [ptok] => some (st, withPos ptok fun p => if p.threatHypB then "1" else "0")
+  | "threatclone", [ptok, m1, _m2] =>
+    some (st, withPos ptok fun p =>
+      match parseMove m1 with
+      | none => "bad-move"
+      | some m =>
+        match p.apply st.basis m with
+        | .error e => fmtErr e
+        | .ok a => let t := countThreats a.c a; s!"{t.wp} {t.wt} {t.bp} {t.bt} {threatReal a (onePlyRoadWin st.basis)}")
   | "threatstack", [ptok, m1, _m2] =>
     -- storage is invisible in the model (C09): the detector's answer for the position after m1 and a pass
     some (st, withPos ptok fun p =>
